@@ -166,7 +166,7 @@ CHECKS = {
                        "history is judged: only sent values, none twice, per-sender FIFO, accepted-before-Close delivered before the end, sticky end, valid results, and no call still blocked at a quiescence point where the property says it must have returned"),
         "level_note": "Schedules are explored by script structure and repetition, not exhaustively; 'stuck' is decided by durable-block detection, not timeouts. Sends are never started after the sender's Close was started (misuse).",
         "technique": "property-based testing (rapid) of generated actor scripts in testing/synctest bubbles; history-invariant oracle",
-        "rule": ("plans: buffer in {0,1,2,5}, 1-3 senders, 1-24 steps + drain epilogue; non-trivial = Close called while accepted values were still buffered (buffer >= 1), or Sends of two sender actors overlapped, or a Send was blocked when the receiver closed; distinct = distinct plan JSON; R=5/20 executions each"),
+        "rule": ("plans: buffer in {0,1,2,5}, 1-3 senders, 1-24 steps (incl. tryburst: all senders TrySend at once) + drain epilogue; non-trivial = Close called while accepted values were still buffered (buffer >= 1), or Sends of two sender actors overlapped, or a Send was blocked when the receiver closed; distinct = distinct plan JSON; R=5/20 executions each"),
         "assumptions": ["testing/synctest durable-block detection", "logical stamps taken by the actors bracket the library calls", "rapid v1.3.0; go1.26.8"],
         "jobs": [{"pkg": "c10pipe", "kinds": ["pipe"], "scale_thorough": 8, "shards_thorough": 16, "replay_reps": 200},
                  {"pkg": "c10pipe", "race": True, "kinds": ["pipe"], "scale_quick": 0.15, "scale_thorough": 2, "shards_thorough": 4, "replay_reps": 20}],
@@ -178,7 +178,7 @@ CHECKS = {
                        "exactly when all inputs are exhausted and everything is delivered (not earlier, and it is not durably blocked afterwards), stream.Merge reports an input's error and never the end after it, and after Close every input is closed once and the bubble exits"),
         "level_note": "Interleavings are explored by generated gaps/paces and repetition (select randomness), not exhaustively. Trusts testing/synctest and sk.RecStream.",
         "technique": "property-based testing (rapid) of generated producer/consumer scripts in testing/synctest bubbles; multiset/order/termination oracle",
-        "rule": ("kinds chans-merge, replicate, stream-merge. non-trivial = >= 2 non-empty inputs of different lengths (one closes while another still has values), or arity in {0,1}, or an early Close (stream.Merge); replicate: >= 2 destinations and >= 2 values, or zero destinations; distinct = distinct plan JSON; R=3/10"),
+        "rule": ("kinds chans-merge, chans-merge-iface (chan error carrying nil values), replicate, stream-merge, stream-merge-burst (many rounds of inputs that end at the same instant). non-trivial = >= 2 non-empty inputs of different lengths (one closes while another still has values), or arity in {0,1}, or an early Close (stream.Merge); replicate: >= 2 destinations and >= 2 values, or zero destinations; distinct = distinct plan JSON; R=3/10"),
         "assumptions": ["testing/synctest durable-block detection", "rapid v1.3.0; go1.26.8"],
         "jobs": [{"pkg": "c12merge", "kinds": ["chans-merge", "chans-merge-iface", "replicate", "stream-merge", "stream-merge-burst"], "scale_thorough": 10, "shards_thorough": 16, "replay_reps": 30},
                  {"pkg": "c12merge", "race": True, "kinds": ["chans-merge", "chans-merge-iface", "replicate", "stream-merge", "stream-merge-burst"], "scale_quick": 0.15, "scale_thorough": 2, "shards_thorough": 4, "replay_reps": 20}],
@@ -190,7 +190,7 @@ CHECKS = {
                        "Oracle: at most once always and exactly once on nil, gauge <= effective parallelism, Map results in place, nothing running at return and nothing starting during a 5 s fake tail, error provenance, cancellation reaches running calls, began-cancelled <= parallelism-1"),
         "level_note": "Interleavings are those the runtime produces for the generated latency patterns over repetitions; data races are decided by the race detector on the executed schedules.",
         "technique": "property-based testing (rapid) in testing/synctest bubbles with counting/gauge oracle; race-detector runs",
-        "rule": ("kinds parallel (bubble) and parallel-race. non-trivial = n > parallelism >= 2 with non-uniform latencies or at least one failing index; distinct = distinct plan JSON; R=3/8"),
+        "rule": ("kinds parallel (bubble), parallel-race, first-error-storm (50-300 quick failing runs per case on real goroutines), gomaxprocs (parallelism <= 0 after runtime.GOMAXPROCS was lowered). non-trivial = n > parallelism >= 2 with non-uniform latencies or at least one failing index; distinct = distinct plan JSON; R=3/8"),
         "assumptions": ["testing/synctest", "Go race detector", "rapid v1.3.0; go1.26.8"],
         "jobs": [{"pkg": "c13par", "run": "TestParallelBubble|TestFirstErrorStorm|TestGomaxprocs", "kinds": ["parallel", "first-error-storm", "gomaxprocs"], "scale_thorough": 8, "shards_thorough": 16, "replay_reps": 20},
                  {"pkg": "c13par", "run": "TestParallelRace", "race": True, "kinds": ["parallel-race"], "scale_thorough": 8, "shards_thorough": 8, "replay_reps": 20}],
@@ -214,7 +214,7 @@ CHECKS = {
                        "and 1-3 observer loops; Future: waiters before/after Fill with and without deadlines on the fake clock; Lazy: racing first calls"),
         "level_note": "sync.Map is the reference for the typed map (xsync.Map adds no synchronisation of its own); the concurrent clauses are explored by generated timings and repetition in testing/synctest bubbles.",
         "technique": "property-based differential testing (rapid) against sync.Map; model-based and bubble-script checks for Watchable/Future/Lazy",
-        "rule": ("kinds map, watchable-seq, watchable-conc, future, lazy. non-trivial: map = a load-type op hit an absent key and (for interface V) a present key holding a nil interface; watchable-seq = Value before the first Set and Set-Set-Value; "
+        "rule": ("kinds map (int and interface keys incl. the nil key), watchable-seq, watchable-conc, watchable-first-set (many fresh Watchables per case, Value racing the first Set), future (deadline and cancel-only contexts), future-race, lazy. non-trivial: map = a load-type op hit an absent key and (for interface V) a present key holding a nil interface; watchable-seq = Value before the first Set and Set-Set-Value; "
                  "watchable-conc = an observer saw the zero value before a Set or several Sets between two of its Values; future = a waiter present at Fill, >= 2 waiters; lazy = >= 2 racing callers; distinct = distinct plan JSON"),
         "assumptions": ["sync.Map as reference", "testing/synctest", "rapid v1.3.0; go1.26.8"],
         "jobs": [{"pkg": "c18sync", "run": "TestMap|TestWatchable|TestFuture$|TestLazy", "kinds": ["map", "watchable-seq", "watchable-conc", "watchable-first-set", "future", "lazy"], "scale_thorough": 10, "shards_thorough": 16, "replay_reps": 20},
@@ -227,7 +227,8 @@ CHECKS = {
                        "nothing starting afterwards, no overlapping runs of one registration, every trigger made comfortably before the stop is followed by a complete run that began after it, periodic registrations keep running, contexts are cancelled by the stop"),
         "level_note": "Interleavings come from generated times (ties at the same fake instant race for real) and repetition. The trigger obligation is only demanded for calls at least 2 x run-time before the stop, the periodic bound is deliberately loose.",
         "technique": "property-based testing (rapid) of generated timelines in testing/synctest bubbles; run-log invariants",
-        "rule": ("plans: 1-5 registrations, 0-12 trigger events, one stop; non-trivial = a trigger call landed while its function was running, or a registration raced with the stop; distinct = distinct plan JSON; R=3/10"),
+        "rule": ("kinds group (timelines: 1-5 registrations, 0-12 trigger events incl. concurrent bursts, one stop incl. parent cancel/deadline), stop-storm (goroutines keep calling Do while the group is stopped, 5-30 rounds per case), "
+                 "trigger-first-call (racing first calls of a trigger function, then triggers during runs), pot-old-timers (PeriodicOrTrigger under asynctimerchan=1 on the real clock). group plans: non-trivial = a trigger call landed while its function was running, or a registration raced with the stop; distinct = distinct plan JSON; R=3/10"),
         "assumptions": ["testing/synctest", "rapid v1.3.0; go1.26.8"],
         "jobs": [{"pkg": "c17old", "kinds": ["pot-old-timers"], "scale_thorough": 4, "shards_thorough": 4},
                  {"pkg": "c17group", "kinds": ["group", "stop-storm", "trigger-first-call"], "scale_thorough": 10, "shards_thorough": 16, "replay_reps": 30},
